@@ -11,6 +11,7 @@ import (
 	"io"
 	"net"
 	"net/http"
+	"strings"
 	"sync"
 	"time"
 
@@ -178,7 +179,11 @@ func (p *peer) streamable(w http.ResponseWriter, r *http.Request) {
 	switch r.Method {
 	case http.MethodGet:
 		c, _ := p.hijack(w)
-		if p.hs != "getHold" { // getHold: the listening stream's request is accepted, no response headers ever come
+		switch p.hs {
+		case "getHold": // the listening stream's request is accepted, no response headers ever come
+		case "getErrStall", "getErr404Stall": // a non-200 answer whose body stalls after its first bytes
+			io.WriteString(c, errStallHead(p.hs))
+		default:
 			io.WriteString(c, "HTTP/1.1 200 OK\r\nContent-Type: text/event-stream\r\nCache-Control: no-cache\r\n\r\n")
 		}
 		p.mu.Lock()
@@ -206,6 +211,10 @@ func (p *peer) streamable(w http.ResponseWriter, r *http.Request) {
 		case "postReset":
 			c, _ := p.hijack(w)
 			endConn(c, "reset")
+			return
+		case "postErrStall": // 503 to the initialize POST, the error body stalls after its first bytes
+			c, _ := p.hijack(w)
+			io.WriteString(c, errStallHead(p.hs))
 			return
 		case "http500":
 			http.Error(w, "injected", http.StatusInternalServerError)
@@ -260,6 +269,11 @@ func (p *peer) legacyStream(w http.ResponseWriter, r *http.Request) {
 		close(p.streamUp)
 		return
 	}
+	if p.hs == "getErrStall" || p.hs == "getErr404Stall" { // a non-200 answer whose body stalls after its first bytes
+		io.WriteString(c, errStallHead(p.hs))
+		close(p.streamUp)
+		return
+	}
 	io.WriteString(c, "HTTP/1.1 200 OK\r\nContent-Type: text/event-stream\r\nCache-Control: no-cache\r\n\r\n")
 	if p.hs != "endpointStall" {
 		io.WriteString(c, "event: endpoint\ndata: /message?sessionId="+p.sid+"\n\n")
@@ -284,6 +298,10 @@ func (p *peer) legacyPost(w http.ResponseWriter, r *http.Request) {
 		case "postReset":
 			c, _ := p.hijack(w)
 			endConn(c, "reset")
+			return
+		case "postErrStall": // 503 to the initialize POST, the error body stalls after its first bytes
+			c, _ := p.hijack(w)
+			io.WriteString(c, errStallHead(p.hs))
 			return
 		case "http500":
 			http.Error(w, "injected", http.StatusInternalServerError)
@@ -490,6 +508,15 @@ func (p *peer) streamsOpen(wait time.Duration) int {
 		}
 	}
 	return open
+}
+
+// errStallHead: a non-200 response whose headers promise a body of 100 bytes, followed by the first 8 of them.
+func errStallHead(hs string) string {
+	status := "503 Service Unavailable"
+	if strings.Contains(hs, "404") {
+		status = "404 Not Found"
+	}
+	return "HTTP/1.1 " + status + "\r\nContent-Type: text/plain\r\nContent-Length: 100\r\n\r\nupstream"
 }
 
 // ---- a peer that lingers: the stream is kept open after the final answer frame
